@@ -100,6 +100,15 @@ def gen(rng):
             content += 'DeletionDate=%s\n' % date_s
         content += extra
         G.add_trashed(steps, tdir, nm, pv, None, rng.choice(['file', 'dir', 'link', 'none']), info_content=content, tag=str(i))
+        if rng.random() < 0.08:
+            # next to it an entry called <name>.trashinfo (a stray info file somebody trashed), with a date of its own on the other
+            # side of the threshold or not: each of the two is judged by its own date
+            try:
+                d2_ = TG.iso(thr + _dt.timedelta(seconds=rng.choice([-86400 * 5, -1, 1, 86400 * 5])))
+            except OverflowError:
+                d2_ = '0001-01-01T00:00:00'
+            G.add_trashed(steps, tdir, nm + '.trashinfo', pv + '.trashinfo', None, rng.choice(['file', 'dir']),
+                          info_content='[Trash Info]\nPath=%s.trashinfo\nDeletionDate=%s\n' % (pv, d2_), tag='%d-ti' % i)
     if rng.random() < 0.4:
         tdir = rng.choice(locs)[0]
         steps.append(['d', tdir + '/files', 0o700])
